@@ -178,7 +178,7 @@ def nextLoop (fuel : Nat) : Nat → Iter F → Option (Option (SliderEvent F) ×
       match it.ticks with
       | event :: rest => some (some event, { it with ticks := rest })          -- `self.ticks.pop()`
       | [] =>
-        if span == it.spanCount then nextLoop fuel n { it with state := .lastTick }
+        if span = it.spanCount then nextLoop fuel n { it with state := .lastTick }
         else
           match generateTicks fuel { it with state := .ticks (span + 1) } span with
           | none => none
